@@ -226,6 +226,7 @@ class NumOps:
             r = h(self.I, node, opname, a, b, res)
             if r is not None:
                 res = r
+        self.I.note_range(res)
         return res
 
     # ---------------------------------------------------------------- unary
